@@ -2065,3 +2065,41 @@ class LimitSuite(HistSuite):
                     out.append(("limit:exceeded", "more than %d slots handed out" % c.meta["limit"], c))
                     ok = -10 ** 9
         return out
+
+
+# ================================================================================================ C20: threads
+class ThreadSuite(Suite):
+    """the same per-thread workloads sequentially and concurrently on distinct documents (shared read-only document, shared default allocator)"""
+    name = "threads"
+    uses_driver = False
+
+    def run_custom(self, ajlib, rng, tier):
+        import subprocess
+        cfg = dict(self.cfg)
+        tsan = tier == "thorough"
+        if tsan:
+            cfg["tsan"] = 1
+        exe, err = ajlib.build_harness(cfg, source="thread_harness.cpp")
+        if exe is None:
+            return {"error": err}
+        n = 600 if tier == "quick" else 4000
+        texts = []
+        for i in range(n):
+            _, t = gens.gen_json_doc(rng, maxdepth=3, budget=rng.choice([3, 8, 14]))
+            if rng.random() < 0.15:
+                t = gens.mutate(rng, t)
+            texts.append(t.hex())
+        rounds = 4 if tier == "quick" else 30
+        env = dict(__import__("os").environ)
+        env["TSAN_OPTIONS"] = "halt_on_error=1:exitcode=66"
+        env["ASAN_OPTIONS"] = "detect_leaks=0:exitcode=77"
+        p = subprocess.run([exe, "8", str(rounds)], input="\n".join(texts) + "\n", stdout=subprocess.PIPE, stderr=subprocess.PIPE, text=True, env=env, timeout=3000)
+        res = {"evaluations": n * rounds, "features": {("text", t) for t in texts if len(t) > 8}, "samples": [{"suite": "threads", "line": texts[0][:200], "implementation": p.stdout[:300]}], "violations": []}
+        if p.returncode != 0 or not p.stdout.startswith("ok"):
+            what = p.stdout.strip()[:600] or ajlib.crash_kind(p.stderr)
+            if "ThreadSanitizer" in p.stderr:
+                what = "ThreadSanitizer: " + " | ".join(l.strip() for l in p.stderr.splitlines() if "data race" in l or "#0" in l or "Location is" in l)[:600]
+            res["violations"].append(("threads:diverges" if "DIVERGENCE" in p.stdout else "threads:race-or-crash",
+                                      "concurrent use of distinct documents differs from the sequential run: " + what,
+                                      {"suite": "threads", "cfg": cfg, "source": "thread_harness.cpp", "argv": ["8", str(rounds)], "texts": texts[:50], "what": what}))
+        return res
